@@ -51,6 +51,7 @@ func c05Shapes() []linkShape {
 		add("out-sibling-prefix-dir", "{UP}../src-evil")
 		add("via-root-name", "{UP}../src/a.txt")
 		add("via-root-name-dir", "{UP}../src/sub")
+		add("via-root-name-deeper-dir", "{UP}../src/sub/deep") // its inner link ../../a.txt is written for another depth
 		add("via-root-name-dotted", "./{UP}../src/a.txt")
 		add("via-root-name-embedded-climb", "sub/../{UP}../src/a.txt")
 		add("out-embedded-climb", "sub/../{UP}../outside/file.txt")
@@ -127,6 +128,8 @@ func c05BuildWorld(c c05Case) error {
 	mustWrite("/w/src/sub/peer.txt", "inside sub peer\n", 0644)
 	mustWrite("/w/src/sub/deep/c.txt", "inside c\n", 0644)
 	mustWrite("/w/src/sub/deep/peer.txt", "inside deep peer\n", 0644)
+	os.Symlink("../../a.txt", "/w/src/sub/deep/inner-up")
+	os.Symlink("c.txt", "/w/src/sub/deep/inner-same")
 	for _, l := range c.Links {
 		if l.Name == "chain-in-to-out" {
 			// the intermediate link of the chain (itself an out-of-tree link)
@@ -523,7 +526,7 @@ func init() {
 	fw.Register(&fw.Property{
 		ID:    "C05",
 		Level: "exploration",
-		Rule: "a source tree with a prefix-sharing sibling (src / src-evil) and an outside area full of OUTSIDE-<n> canaries gets 1-6 links of 36 shapes (incl. links that stay inside as written but are led outside by another link) (in-tree: same dir, via root, dir, dot, dangling, dotted; out-of-tree: relative file/dir/dangling, sibling-prefix, via the root's own name, absolute in/out, chains in->out, out->in, out->out, external directory with inner links, parent, root itself) at 3 depths; " +
+		Rule: "a source tree with a prefix-sharing sibling (src / src-evil) and an outside area full of OUTSIDE-<n> canaries gets 1-6 links of 37 shapes (incl. links that stay inside as written but are led outside by another link) (in-tree: same dir, via root, dir, dot, dangling, dotted; out-of-tree: relative file/dir/dangling, sibling-prefix, via the root's own name, absolute in/out, chains in->out, out->in, out->out, external directory with inner links, parent, root itself) at 3 depths; " +
 			"packed with {dereference on/off} x {ignore on/off} x 5 allow-list settings x {fresh Packer, a Packer that packed another root at another depth before}; the slug is decoded independently and every entry is compared with the tree and with the physical target of its link; slugs from all-relative trees are handed to Unpack. Exhaustive over single shapes x option sets, PRNG over combinations. " +
 			"non-trivial = some link leaves the tree or approaches its boundary; distinct = links x options",
 		Assumptions: []string{"a link is out-of-tree when the place its target names, from the link's real location, is outside the source directory (component-wise)", "absolute links that point into the tree may be stored as absolute link entries (pinned by the repository's tests); such trees are exempt from the 'Unpack accepts' clause", "link cycles and links to special files belong to C19"},
